@@ -51,7 +51,7 @@ fn oracle(c: &Case, st: &mut Stats) -> Result<(), String> {
   if other_input == c.input.0 {
     other_input.push(0);
   }
-  let mut servers: Vec<Server> = (0..c.servers.max(1)).map(|_| Server::new(c.mds.clone()).map_err(|e| e.to_string())).collect::<Result<_, _>>()?;
+  let mut servers: Vec<Server> = (0..c.servers.max(1)).map(|_| Server::new(registration_list(&c.mds)).map_err(|e| e.to_string())).collect::<Result<_, _>>()?;
   // a first output before any puncture, to be compared with everything that follows
   let before: Vec<[u8; 32]> = servers.iter().map(|s| crate::starx::ppoprf_exchange(s, md, &c.input, false)).collect::<Result<_, _>>()?;
   let mut npunct = 0usize;
